@@ -740,6 +740,23 @@ func TestCheck(t *testing.T) {
 		rec.Class("after-try-property")
 	})
 	rec.Unfreeze()
+	ev.RapidCheck(t, "recursive", ev.N(600, 9000), 5, func(rt *rapid.T) {
+		sc := generateRecursive(rt, rapid.Bool().Draw(rt, "allow-try"))
+		checkScenario(rt, rec, sc, true)
+		classify(rec, sc)
+		rec.Class("recursive-property")
+		rec.Class(fmt.Sprintf("recursive:cycle=%d", sc.RecCycle))
+		if sc.RecTwoSites {
+			rec.Class("recursive:two-call-sites-by-parity")
+		}
+		if sc.RecRounds >= 3 && (sc.RecCycle >= 2 || sc.RecTwoSites) {
+			rec.Class("recursive:same-call-statement-active-again-non-adjacent")
+		}
+		if sc.RecRounds >= 2 && sc.RecCycle == 1 && !sc.RecTwoSites {
+			rec.Class("recursive:single-site(adjacent-equal-positions-collapse)")
+		}
+	})
+	rec.Unfreeze()
 	ev.RapidCheck(t, "broken", ev.N(4000, 40000), 3, func(rt *rapid.T) {
 		sc := generate(rt, false, true)
 		c := replayCase{Kind: "compile", Main: sc.Main, Mod: sc.Mod, HasMod: sc.HasMod,
